@@ -22,6 +22,21 @@ class InjectedModelStop(StopIteration):
     pass
 
 
+class InjectedModelValueError(ValueError):
+    pass
+
+
+class InjectedModelLookupError(KeyError):
+    pass
+
+
+class InjectedModelOSError(OSError):
+    pass
+
+
+MODEL_FLAVOURS = {"value": InjectedModelValueError, "lookup": InjectedModelLookupError, "os": InjectedModelOSError}
+
+
 class InjectedModelInterrupt(KeyboardInterrupt):
     """A BaseException that is not an Exception (what Ctrl-C during a simulation raises)."""
 
@@ -43,6 +58,8 @@ def _enter(theta, N, seed):
     if FAULT_AT is not None and k == FAULT_AT:
         if FAULT_INTERRUPT == "stop":
             raise InjectedModelStop(f"model call {k}")
+        if FAULT_INTERRUPT in MODEL_FLAVOURS:
+            raise MODEL_FLAVOURS[FAULT_INTERRUPT](f"model call {k}")
         if FAULT_INTERRUPT:
             raise InjectedModelInterrupt(f"model call {k}")
         raise InjectedModelFault(f"model call {k}")
